@@ -157,14 +157,19 @@ def check(run):
                     continue
                 if method == 'meek':
                     lo = min(hop.values())
-                    s = pre.surplus if pre.surplus is not None and cfg.cmp(pre.surplus, 0) > 0 else 0
+                    s = pre.surplus if pre.surplus is not None and pre.surplus > 0 else 0      # the stored value, as the rule adds it
                     tied = sorted(c for c, v in hop.items() if cfg.cmp(lo + s, v) >= 0)
                     # membership of the tied set hinges on differences within a few tolerances (a slightly negative surplus inside
                     # the tolerance is kept by the code, dropped here): not evaluated, as for every other near-tolerance decision
                     amb = cfg.geps > 1 and any(0 < abs(v - (lo + s)) < 3 * cfg.geps for v in hop.values())
                 else:
                     tied, amb = extreme_set(cfg, hop, True)
-                if c0 not in tied and not amb:
+                # however the near-tolerance members of the tied set are read, the excluded candidate itself cannot stand more than one
+                # tolerance (plus the untransferred surplus, Meek family) above the true minimum: that bound does not depend on
+                # the order or transitivity of the comparisons
+                floor = min(hop.values()) + (s if method == 'meek' else 0)
+                gross = cfg.geps > 1 and hop[c0] - floor >= cfg.geps + cfg.geps // 4
+                if c0 not in tied and (not amb or gross):
                     bad('excluded-not-lowest', 'candidate %d (%s) excluded but the lowest are %s (%s)'
                         % (c0, cfg.frac(hop[c0]), tied, [str(cfg.frac(hop[t])) for t in tied]), ev)
                 else:
@@ -294,10 +299,27 @@ def relational(case, rng, ctx):
     return out
 
 
+def coarse(rng, opts):
+    """
+    one Meek-family case in five under very coarse guarded arithmetic (precision 0-2, a few guard digits): tallies then sit within
+    a tolerance or two of one another all the time, which is where a lowest candidate found by tolerant comparisons and the true
+    lowest part ways
+    """
+    if opts['rule'] in ('meek', 'warren') and rng.random() < 0.2:
+        p = rng.randint(0, 2)
+        o = dict(rule=opts['rule'], arithmetic='guarded', precision=p, guard=rng.randint(1, 3))
+        if rng.random() < 0.5:
+            o['omega'] = rng.randint(0, max(0, p))
+        if rng.random() < 0.4:
+            o['defeat_batch'] = 'none'
+        return o
+    return opts
+
+
 def shard(ctx):
     n_min = 60 if ctx.quick else 400
     for i, rng in ctx.cases(n_min, 10 ** 9):
-        case = stream.make_case(ctx, rng, WEIGHTS, render=True)
+        case = stream.make_case(ctx, rng, WEIGHTS, render=True, tweak=coarse)
         if not stream.usable(ctx, case):
             continue
         vs, st = check(case.run)
